@@ -451,7 +451,30 @@ static void run_acobject(void) {
         if (vc_asan_check()) vc_viol("asan:qaconf_parse", "%s", key);
         vc_case_end();
     }
-    vc_sample("callback returns an error string on line 2 -> -1 with 'path:2 <message>'; default handler receives unregistered directives; parse after a failed parse");
+    /* the same object parses the same path again after the file changed (a reload): line numbers start at 1 again, counts are per parse */
+    if (vc_case("qaconf_parse", "acobject:reload")) {
+        n_eval++; n_nontrivial++;
+        qaconf_t *c = qaconf();
+        qaconf_option_t o[] = {{"x", QAC_TAKE1, cb_err, 0, QAC_SECTION_ALL}, QAC_OPTION_END};
+        c->addoptions(c, o); c->setuserdata(c, &ud_seen); ud_seen = 0;
+        wr("x ok\n\n# c\nx ok\nx ok\nx ok\n");
+        int r1 = c->parse(c, mpath, 0);
+        if (r1 != 4 || c->errmsg(c)) vc_viol("apache:count", "acobject:reload: first parse returned %d, message '%s'", r1, c->errmsg(c) ? c->errmsg(c) : "-");
+        wr("x ok\nx ok\n");
+        int r2 = c->parse(c, mpath, 0);
+        if (r2 != 2 || c->errmsg(c)) vc_viol("apache:count", "acobject:reload: second parse of the same path returned %d (2 directives), message '%s'", r2, c->errmsg(c) ? c->errmsg(c) : "-");
+        wr("x ok\nx ok\nx bad\n");
+        int r3 = c->parse(c, mpath, 0); const char *e = c->errmsg(c);
+        if (r3 != -1 || !e || !strstr(e, ":3 value refused by callback")) vc_viol("apache:errmsg-line", "acobject:reload: third parse of the same path returned %d, message '%s' (expected -1 naming line 3)", r3, e ? e : "(null)");
+        c->reseterror(c);
+        wr("x ok\n");
+        int r4 = c->parse(c, mpath, 0);
+        if (r4 != 1 || c->errmsg(c)) vc_viol("apache:count", "acobject:reload: parse after a reset error returned %d", r4);
+        c->free(c);
+        if (vc_asan_check()) vc_viol("asan:qaconf_parse", "acobject:reload");
+        vc_case_end();
+    }
+    vc_sample("callback returns an error string on line 2 -> -1 with 'path:2 <message>'; default handler receives unregistered directives; parse after a failed parse; reload of the same path");
 }
 
 /* ---- (iii) structure space ---- */
@@ -589,8 +612,10 @@ static QAC_CB(cb_deep) {
     if (parents > deep_maxlevel) deep_maxlevel = parents;
     return NULL;
 }
-static void deep_case(int d) {
-    char key[64]; snprintf(key, sizeof key, "acdeep:%d", d);
+/* mode 0: the section S is registered; 1: nobody registered it and QAC_IGNOREUNKNOWN is set (no callbacks for it); 2: nobody
+ * registered it and a default handler receives it. Every open section is a recursion and a level whoever owns its name */
+static void deep_case_mode(int d, int mode) {
+    char key[64]; snprintf(key, sizeof key, mode ? "acdeep%d:%d" : "acdeep:%d", mode ? mode : d, d);
     if (!vc_case("qaconf_parse", key)) return;
     n_eval++; n_nontrivial++;
     char *docb = malloc((size_t)d * 40 + 64), *o = docb;
@@ -600,27 +625,34 @@ static void deep_case(int d) {
     wr(docb); free(docb);
     qaconf_t *c = qaconf();
     qaconf_option_t opt[] = {{"S", QAC_TAKE1, cb_deep, 0, QAC_SECTION_ALL}, {"x", QAC_TAKE1, cb_deep, 0, QAC_SECTION_ALL}, QAC_OPTION_END};
-    c->addoptions(c, opt); deep_bad = deep_ncb = deep_maxlevel = 0; deep_msg[0] = 0;
-    int r = c->parse(c, mpath, 0); const char *e = c->errmsg(c);
+    c->addoptions(c, mode ? opt + 1 : opt); deep_bad = deep_ncb = deep_maxlevel = 0; deep_msg[0] = 0;
+    if (mode == 2) c->setdefhandler(c, cb_deep);
+    int all = mode == 1 ? 1 : 2 * d + 1;        /* callbacks expected for an accepted file */
+    int r = c->parse(c, mpath, mode == 1 ? QAC_IGNOREUNKNOWN : 0); const char *e = c->errmsg(c);
     if (deep_bad) vc_viol("apache:level", "%s: %s (%d callbacks with a wrong level)", key, deep_msg, deep_bad);
     if (d <= 255) {
-        if (r != 2 * d + 1 || e) vc_viol("apache:count", "%s: returned %d, message '%s'; expected %d directives", key, r, e ? e : "-", 2 * d + 1);
-        else if (deep_ncb != 2 * d + 1 || deep_maxlevel != d) vc_viol("apache:callbacks", "%s: %d callbacks, deepest has %d parents; expected %d and %d", key, deep_ncb, deep_maxlevel, 2 * d + 1, d);
+        if ((r != 2 * d + 1 && !(mode && r == 1)) || e) vc_viol("apache:count", "%s: returned %d, message '%s'; expected %d directives", key, r, e ? e : "-", 2 * d + 1);
+        else if (deep_ncb != all || deep_maxlevel != d) vc_viol("apache:callbacks", "%s: %d callbacks, deepest has %d parents; expected %d and %d", key, deep_ncb, deep_maxlevel, all, d);
     } else if (r != -1) {
-        if (r != 2 * d + 1 || deep_ncb != 2 * d + 1 || deep_maxlevel != d) vc_viol("apache:count", "%s: returned %d after %d callbacks", key, r, deep_ncb);
+        if (deep_ncb != all || deep_maxlevel != d) vc_viol("apache:count", "%s: returned %d after %d callbacks (deepest with %d parents): more than 255 levels can only be refused", key, r, deep_ncb, deep_maxlevel);
     } else {   /* refused: the message names the line of the section that does not fit, everything before it was delivered */
         char want_[32]; snprintf(want_, sizeof want_, ":%d ", 256);
         if (!e || !strstr(e, want_)) vc_viol("apache:errmsg-line", "%s: refused with message '%s', expected it to name line 256", key, e ? e : "(null)");
-        if (deep_ncb < 255 || deep_ncb > 256) vc_viol("apache:callbacks-before-error", "%s: %d callbacks before the refusal", key, deep_ncb);
+        if (mode != 1 && (deep_ncb < 255 || deep_ncb > 256)) vc_viol("apache:callbacks-before-error", "%s: %d callbacks before the refusal", key, deep_ncb);
     }
     c->free(c);
     if (vc_asan_check()) vc_viol("asan:qaconf_parse", "%s", key);
     vc_case_end();
 }
+static void deep_case(int d) { deep_case_mode(d, 0); }
 static void run_acdeep(int dense, int thorough) {
     for (int d = 1; d <= dense; d++) { deep_case(d); if (vc_deadline_hit()) return; }
     static const int far_[] = {400, 512, 513, 1000, 1500, 1800, 2000, 2500, 3000, 5000, 10000, 20000};
     for (int i = 0; i < (int)(sizeof far_ / sizeof far_[0]); i++) if (far_[i] > dense && (thorough || far_[i] <= 5000)) deep_case(far_[i]);
+    for (int mode = 1; mode <= 2; mode++) {    /* sections that nobody registered */
+        for (int d = 250; d <= 260; d++) deep_case_mode(d, mode);
+        const int more[] = {1, 2, 100, 400, 1000, 2000, 3000, 5000}; for (int i = 0; i < 8; i++) deep_case_mode(more[i], mode);
+    }
     vc_sample("<S n0> ... <S n%d> / x v / </S> ... : level == number of parents in every callback, count 2d+1; beyond 255 parents only a refusal naming line 256", dense - 1);
 }
 
@@ -640,6 +672,8 @@ static int replay(const char *key) {
     else if (!strncmp(key, "acquote:", 8)) run_acquote(3, 0, 1);
     else if (!strncmp(key, "acobject:", 9)) run_acobject();
     else if (!strncmp(key, "acdeep:", 7)) deep_case(atoi(key + 7));
+    else if (!strncmp(key, "acdeep1:", 8)) deep_case_mode(atoi(key + 8), 1);
+    else if (!strncmp(key, "acdeep2:", 8)) deep_case_mode(atoi(key + 8), 2);
     else if (!strncmp(key, "acstruct:", 9)) { int f, mi, md; sscanf(key + 9, "%d:%d:%d", &f, &mi, &md); run_acstruct(f, mi, md, 0, 1); }
     return 0;
 }
